@@ -372,7 +372,11 @@ func (p *c14) Run(ci any, env *core.Env) *core.Failure {
 			env.Count("declined", "lazy.CompileWithConfig")
 		}
 		if !hasLook {
-			if d, err := lazy.CompileWithConfig(nfa.ReverseAnchored(n), lcfg); err == nil {
+			// reverse automata are built the way lazy.Config documents (and every
+			// caller in meta does): "Set BreakAtMatch to false for REVERSE DFAs"
+			rcfg := lcfg
+			rcfg.BreakAtMatch = false
+			if d, err := lazy.CompileWithConfig(nfa.ReverseAnchored(n), rcfg); err == nil {
 				rev = d
 				revCache = d.NewCache()
 			} else {
